@@ -79,4 +79,25 @@ theorem validating_operations_enable_validation_first :
       (fun op => (lookupL op Facts.treeSimpleCalls).take 2 == ["grower.enableValidation", "grower.grow"]) = true := by
   decide
 
+/-- exported entry point ↦ the operation it calls on the tree `initializeTree(cfg)` builds: the Markdown forms and
+    their deprecated names the reader operations, the From-Root forms and theirs the `…Programmably` operations -/
+def expectedEntryTree : List (String × List String) :=
+  [("OutputFromMarkdown", ["initializeTree.output"]), ("Output", ["initializeTree.output"]),
+   ("MkdirFromMarkdown", ["initializeTree.mkdir"]), ("Mkdir", ["initializeTree.mkdir"]),
+   ("VerifyFromMarkdown", ["initializeTree.verify"]), ("Verify", ["initializeTree.verify"]),
+   ("WalkFromMarkdown", ["initializeTree.walk"]), ("Walk", ["initializeTree.walk"]),
+   ("OutputFromRoot", ["initializeTree.outputProgrammably"]), ("OutputProgrammably", ["initializeTree.outputProgrammably"]),
+   ("MkdirFromRoot", ["initializeTree.mkdirProgrammably"]), ("MkdirProgrammably", ["initializeTree.mkdirProgrammably"]),
+   ("VerifyFromRoot", ["initializeTree.verifyProgrammably"]), ("VerifyProgrammably", ["initializeTree.verifyProgrammably"]),
+   ("WalkFromRoot", ["initializeTree.walkProgrammably"]), ("WalkProgrammably", ["initializeTree.walkProgrammably"]),
+   ("WalkIterFromRoot", ["initializeTree.walkIterProgrammably"]), ("WalkIterProgrammably", ["initializeTree.walkIterProgrammably"])]
+
+/-- every entry point builds its tree with `initializeTree` — a fresh one on every call, the massive one exactly when
+    the configuration says so — and calls the operation of its own name on it -/
+theorem entry_points_build_a_fresh_tree :
+    expectedEntryTree.all (fun e => lookupL e.1 Facts.entryTree == e.2) = true ∧
+    Facts.entryTree.length = expectedEntryTree.length ∧
+    lookupL "initializeTree" Facts.initTree =
+      ["if:cfg.massive", "return", "call:newTreePipeline", "return", "call:newTreeSimple"] := by decide
+
 end Gtree
